@@ -83,10 +83,6 @@ func (p *AV1Payloader) Payload(mtu uint16, payload []byte) (payloads [][]byte) {
 				obuHeader.ExtensionHeader.TemporalID != currentPacketOBUHeader.TemporalID
 		}
 
-		if obuHeader.ExtensionHeader != nil {
-			currentPacketOBUHeader = obuHeader.ExtensionHeader
-		}
-
 		if obuSize > len(payload)-offset {
 			break
 		}
@@ -108,6 +104,11 @@ func (p *AV1Payloader) Payload(mtu uint16, payload []byte) (payloads [][]byte) {
 				newSequence = false
 				currentPacketOBUHeader = nil
 			}
+		}
+
+		// Remember the layer ids only now: the flush above resets them when a new packet starts.
+		if obuHeader.ExtensionHeader != nil {
+			currentPacketOBUHeader = obuHeader.ExtensionHeader
 		}
 
 		// The temporal delimiter OBU, if present, SHOULD be removed when transmitting,
